@@ -2271,6 +2271,22 @@ impl HnswBackend {
         store.metadata.get(*internal_id).cloned()
     }
 
+    /// Fetch document metadata together with the coherence token of the vector it belongs to,
+    /// under one read of the document store, so a caller can pair it with a mirrored copy of
+    /// exactly that vector version.
+    #[instrument(level = "trace", skip(self), fields(doc_id))]
+    pub fn fetch_metadata_with_coherence(
+        &self,
+        doc_id: u64,
+    ) -> Option<(HashMap<String, String>, VectorCoherenceToken)> {
+        let store = self.doc_store.read();
+        let internal_id = store.external_to_internal.get(&doc_id)?;
+        let metadata = store.metadata.get(*internal_id)?.clone();
+        let version = *store.versions.get(*internal_id)?;
+        let digest = *store.digests.get(*internal_id)?;
+        Some((metadata, VectorCoherenceToken::new(version, digest)))
+    }
+
     /// Return the current canonical coherence token for an active document.
     #[instrument(level = "trace", skip(self), fields(doc_id))]
     pub fn current_coherence_token(&self, doc_id: u64) -> Option<VectorCoherenceToken> {
